@@ -8,6 +8,7 @@ package main
 import (
 	"io"
 	"log"
+	"strings"
 
 	"verifharness/hxlib"
 	. "verifharness/hxtimers"
@@ -15,8 +16,14 @@ import (
 
 var r *hxlib.Run
 
-func emit(c Case) *Exec {
-	e := Emit(r, c, true, false)
+func emit(c Case) *Exec { return emitM(c, modelable(c)) }
+
+// modelable: the answer lines of the case can be compared with the Lean model (deliveries of a shared object carry
+// no timer identity, so such a case is judged by the oracle only).
+func modelable(c Case) bool { return !strings.HasPrefix(c.Obj, "shared") }
+
+func emitM(c Case, model bool) *Exec {
+	e := Emit(r, c, model, false)
 	if e.Ref.CancelBeforeAdd > 0 || e.Ref.CancelAtExpiry > 0 || e.Ref.CancelInPass > 0 {
 		r.NonTrivial(c.Key())
 	}
@@ -119,6 +126,13 @@ func main() {
 	if r.Replay != "" {
 		var c Case
 		r.LoadReplay(&c)
+		if strings.HasPrefix(c.Sched, "live-re-") {
+			r.Case()
+			if what := LiveReentrant(c.Sched[len("live-re-"):]); what != "" {
+				r.Fail("live-reentrant:"+c.Sched[len("live-re-"):], what, c)
+			}
+			return
+		}
 		if len(c.Sched) > 5 && c.Sched[:5] == "live-" {
 			if what := live(c.Sched[5:]); what != "" {
 				r.Fail("live:"+c.Sched[5:], c.Sched[5:]+" (real goroutine): "+what, c)
@@ -221,64 +235,73 @@ func main() {
 		if k%2 == 1 {
 			sched = "heap"
 		}
-		c := Case{Sched: sched, Time: int64(R.Intn(1000)), Pos: uint32(R.Pick(0, 250, 1<<14-5, 1<<20-3, 1<<32-4) + R.Intn(8))}
-		started, adds, dels := 0, 0, 0
-		L := R.Range(5, 60)
-		for i := 0; i < L; i++ {
-			switch x := R.Intn(20); {
-			case x < 4 && started < 12:
-				c.Ops = append(c.Ops, Op{K: "after", A: int64(R.Pick(0, 0, 1, 1, 2, 3, 5, 255, 256, 257))})
-				started++
-				adds++
-			case x < 6 && started < 12:
-				c.Ops = append(c.Ops, Op{K: "every", A: int64(R.Pick(0, 1, 1, 2, 3, 256))})
-				started++
-				adds++
-			case x < 10 && started > 0:
-				c.Ops = append(c.Ops, Op{K: "cancel", A: int64(R.Range(1, started+1))})
-				dels++
-			case x < 13:
-				c.Ops = append(c.Ops, Op{K: "add"})
-			case x < 15:
-				c.Ops = append(c.Ops, Op{K: "del"})
-			case x < 16:
-				c.Ops = append(c.Ops, Op{K: "advance", A: int64(R.Pick(0, 1, 1, 1, 2, 3, 254, 256))})
-			case x < 18:
-				ft := Op{K: "ftick", A: 1, Sub: make([][]Op, 6)}
-				for j := R.Range(1, 3); j > 0 && started > 0; j-- {
-					k := R.Intn(6)
-					switch R.Intn(5) {
-					case 0:
-						if started < 12 {
-							ft.Sub[k] = append(ft.Sub[k], Op{K: "after", A: int64(R.Pick(0, 1, 2))})
-							started++
-							adds++
-						}
-					case 1:
-						ft.Sub[k] = append(ft.Sub[k], Op{K: "size"})
-					default:
-						ft.Sub[k] = append(ft.Sub[k], Op{K: "cancel", A: int64(R.Range(1, started))})
-						dels++
-					}
-				}
-				c.Ops = append(c.Ops, ft)
-			case x < 19:
-				c.Ops = append(c.Ops, Op{K: "size"})
-			default:
-				c.Ops = append(c.Ops, Op{K: "sched", A: int64(R.Range(1, started+1))})
-			}
-		}
-		for i := 0; i < started; i++ {
-			c.Ops = append(c.Ops, Op{K: "add"})
-		}
-		c.Ops = append(c.Ops, Op{K: "advance", A: 1})
-		for i := 0; i < dels; i++ {
-			c.Ops = append(c.Ops, Op{K: "del"})
-		}
-		c.Ops = append(c.Ops, Op{K: "advance", A: 300}, Op{K: "size"}, Op{K: "links"})
+		c := randomHistory(R, sched)
 		if k < 2 {
 			r.Sample(c)
 		}
 		emit(c)
 	}
+	// what the generators above do not vary: Runnable objects, constructors, extreme arguments, id counter, re-entrancy
+	diversityLegs(scripts)
+}
+
+// randomHistory: a random client history under a random worker schedule (requests handled late, ticks in between,
+// client calls inside expiry passes), with an epilogue that lets everything outstanding happen.
+func randomHistory(R *hxlib.Rand, sched string) Case {
+	c := Case{Sched: sched, Time: int64(R.Intn(1000)), Pos: uint32(R.Pick(0, 250, 1<<14-5, 1<<20-3, 1<<32-4) + R.Intn(8))}
+	started, adds, dels := 0, 0, 0
+	L := R.Range(5, 60)
+	for i := 0; i < L; i++ {
+		switch x := R.Intn(20); {
+		case x < 4 && started < 12:
+			c.Ops = append(c.Ops, Op{K: "after", A: int64(R.Pick(0, 0, 1, 1, 2, 3, 5, 255, 256, 257))})
+			started++
+			adds++
+		case x < 6 && started < 12:
+			c.Ops = append(c.Ops, Op{K: "every", A: int64(R.Pick(0, 1, 1, 2, 3, 256))})
+			started++
+			adds++
+		case x < 10 && started > 0:
+			c.Ops = append(c.Ops, Op{K: "cancel", A: int64(R.Range(1, started+1))})
+			dels++
+		case x < 13:
+			c.Ops = append(c.Ops, Op{K: "add"})
+		case x < 15:
+			c.Ops = append(c.Ops, Op{K: "del"})
+		case x < 16:
+			c.Ops = append(c.Ops, Op{K: "advance", A: int64(R.Pick(0, 1, 1, 1, 2, 3, 254, 256))})
+		case x < 18:
+			ft := Op{K: "ftick", A: 1, Sub: make([][]Op, 6)}
+			for j := R.Range(1, 3); j > 0 && started > 0; j-- {
+				k := R.Intn(6)
+				switch R.Intn(5) {
+				case 0:
+					if started < 12 {
+						ft.Sub[k] = append(ft.Sub[k], Op{K: "after", A: int64(R.Pick(0, 1, 2))})
+						started++
+						adds++
+					}
+				case 1:
+					ft.Sub[k] = append(ft.Sub[k], Op{K: "size"})
+				default:
+					ft.Sub[k] = append(ft.Sub[k], Op{K: "cancel", A: int64(R.Range(1, started))})
+					dels++
+				}
+			}
+			c.Ops = append(c.Ops, ft)
+		case x < 19:
+			c.Ops = append(c.Ops, Op{K: "size"})
+		default:
+			c.Ops = append(c.Ops, Op{K: "sched", A: int64(R.Range(1, started+1))})
+		}
+	}
+	for i := 0; i < started; i++ {
+		c.Ops = append(c.Ops, Op{K: "add"})
+	}
+	c.Ops = append(c.Ops, Op{K: "advance", A: 1})
+	for i := 0; i < dels; i++ {
+		c.Ops = append(c.Ops, Op{K: "del"})
+	}
+	c.Ops = append(c.Ops, Op{K: "advance", A: 300}, Op{K: "size"}, Op{K: "links"})
+	return c
 }
